@@ -263,6 +263,12 @@ class World:
             return self.repo_function(fsrc.relpath, name, ex)
         if name in mod.imports:
             return self.external(mod.imports[name], ex)
+        for base in getattr(mod, "star_imports", []):
+            # from module import *: the name may come from there
+            try:
+                return self.external(base + "." + name, ex)
+            except Unsupported:
+                continue
         if name in self.builtins:
             return self.builtins[name]
         return None
@@ -1510,7 +1516,7 @@ class World:
             if not all(sym.is_concrete_bool(p) is True for p, _ in v.items.values()):
                 raise Unsupported("%s(dict with symbolic presence)" % sk)
             keys = [VStr(k) if isinstance(k, str) else VInt(k) for k in v.items]
-            return self.ext.list_from_items(ex, keys, sk) if keys else self.ext.new_list(ex, sk)
+            return VTup(keys, sk)          # an enumerated dict gives an enumerated (literal) key list
         if isinstance(v, VTup):
             v = self.ext.as_seq(ex, v)
         if isinstance(v, VIter) or isinstance(v, VObj) or isinstance(v, VStr):
